@@ -16,6 +16,7 @@ type chanState struct {
 	cap    int
 	buf    []any
 	closed bool
+	keep   unsafe.Pointer
 	tok    [2]uint64 // race detector token: every completed operation on the channel acquires and releases it
 }
 
@@ -33,7 +34,7 @@ func (cs *chanState) raceSync() {
 type SelCase struct {
 	Send bool
 	ch   *chanState
-	ptr  uintptr
+	ptr  unsafe.Pointer
 	cap  int
 	Val  any
 	real any // the real channel (used only outside of executions)
@@ -46,29 +47,31 @@ type SelResult struct {
 	OK bool
 }
 
-func chanPtr[T any](ch <-chan T) uintptr {
-	return uintptr(*(*unsafe.Pointer)(unsafe.Pointer(&ch)))
+func chanPtr[T any](ch <-chan T) unsafe.Pointer {
+	return *(*unsafe.Pointer)(unsafe.Pointer(&ch))
 }
 
-func chanPtrS[T any](ch chan<- T) uintptr {
-	return uintptr(*(*unsafe.Pointer)(unsafe.Pointer(&ch)))
+func chanPtrS[T any](ch chan<- T) unsafe.Pointer {
+	return *(*unsafe.Pointer)(unsafe.Pointer(&ch))
 }
 
-func (e *Exec) chanOf(ptr uintptr, capacity int) *chanState {
-	if ptr == 0 {
+func (e *Exec) chanOf(ptr unsafe.Pointer, capacity int) *chanState {
+	if ptr == nil {
 		return nil
 	}
-	if i, ok := e.chans.Get(uint64(ptr)); ok {
+	if i, ok := e.chans.Get(uint64(uintptr(ptr))); ok {
 		return e.chanList[i]
 	}
-	cs := &chanState{id: NewObj(), cap: capacity}
-	e.chans.Put(uint64(ptr), uint64(len(e.chanList)))
+	// keep pins the real channel for the rest of the execution: the table is keyed by address, and a collected channel's
+	// address could otherwise be handed to a channel created later in the same execution
+	cs := &chanState{id: NewObj(), cap: capacity, keep: ptr}
+	e.chans.Put(uint64(uintptr(ptr)), uint64(len(e.chanList)))
 	e.chanList = append(e.chanList, cs)
 	return cs
 }
 
-func (e *Exec) chanLookup(ptr uintptr) *chanState {
-	if i, ok := e.chans.Get(uint64(ptr)); ok {
+func (e *Exec) chanLookup(ptr unsafe.Pointer) *chanState {
+	if i, ok := e.chans.Get(uint64(uintptr(ptr))); ok {
 		return e.chanList[i]
 	}
 	return nil
@@ -143,7 +146,7 @@ func Close[T any](ch chan T) {
 	e := E
 	var ro <-chan T = ch
 	ptr := chanPtr(ro)
-	if ptr == 0 {
+	if ptr == nil {
 		panic("close of nil channel")
 	}
 	Point("chan.close", -1, nil)
